@@ -46,13 +46,13 @@ func init() {
 	mc.Register(&mc.Check{
 		ID:    "C12",
 		Level: "exploration",
-		Rule: "Cartesian product of viewBox width/height and target dx/dy over {2^e*m} (21 values quick, 48 thorough), 3 viewBox origins, 4x4 alignment fractions, for AspectMeet and AspectSlice, plus seven extreme families (all dimensions ~2^64 resp. ~2^-80: products of two dimensions overflow resp. underflow float32 while every ratio stays moderate; viewBox ~2^-70 into a target ~2^60 and the reverse: the scale factor itself is outside the float32 range; subnormal viewBoxes ~2^-135 into subnormal and into normal targets, and the reverse); " +
+		Rule: "Cartesian product of viewBox width/height and target dx/dy over {2^e*m} (21 values quick, 48 thorough), 3 viewBox origins, 4x4 alignment fractions, for AspectMeet and AspectSlice, plus ten extreme families (all dimensions ~2^64 resp. ~2^-80: products of two dimensions overflow resp. underflow float32 while every ratio stays moderate; viewBox ~2^-70 into a target ~2^60 and the reverse: the scale factor itself is outside the float32 range; subnormal viewBoxes ~2^-135 into subnormal and into normal targets, and the reverse; ordinary viewBoxes into targets whose two sides are 130..150 binary orders apart from each other); " +
 			"every result compared with an exact (big.Rat / float64) reference fit. An outcome is the tuple (which dimension is constrained, sign of slack in x, sign of slack in y, method); " +
 			"non-trivial = aspect ratios differ so that slack or overflow is non-zero in one dimension",
 		Assumptions: []string{"linux/amd64 float32 semantics", "tolerance 2^-18 relative to max(target side, result extent) per axis"},
 		Units: func(tier string) int {
 			n := len(c12Dom(tier == "thorough"))
-			return n*n + 7
+			return n*n + 10
 		},
 		Run:    c12Run,
 		Replay: c12Replay,
@@ -66,18 +66,19 @@ func init() {
 // gap families: viewBox ~2^-70 into a target ~2^60 and the reverse: the scale factor target /
 // viewBox itself is outside the float32 range (2^130 resp. 2^-130) while every aspect ratio is
 // moderate and the result is of the target's magnitude
-func c12Extreme(w *mc.W, e, et int) {
-	var dom, tdom []float32
+func c12Extreme(w *mc.W, e, et, ety int) {
+	var dom, tdom, tdomY []float32
 	for _, m := range []float64{1, 1.25, 1.75, 1.999} {
 		dom = append(dom, float32(math.Ldexp(m, e)))
 		tdom = append(tdom, float32(math.Ldexp(m, et)))
+		tdomY = append(tdomY, float32(math.Ldexp(m, ety)))
 	}
 	for _, vw := range dom {
 		for _, vh := range dom {
 			for _, off := range []float32{0, float32(math.Ldexp(-3, e))} {
 				vb := ivg.ViewBox{MinX: off, MinY: off / 2, MaxX: off + vw, MaxY: off/2 + vh}
 				for _, dx := range tdom {
-					for _, dy := range tdom {
+					for _, dy := range tdomY {
 						for _, ax := range c12Align {
 							for _, ay := range c12Align {
 								for _, slice := range []bool{false, true} {
@@ -98,8 +99,9 @@ func c12Run(w *mc.W, u int) {
 	dom := c12Dom(w.Thorough)
 	n := len(dom)
 	if u >= n*n {
-		fam := [][2]int{{64, 64}, {-80, -80}, {-70, 60}, {60, -70}, {-135, -135}, {-135, -100}, {-100, -135}}[u-n*n]
-		c12Extreme(w, fam[0], fam[1])
+		fam := [][3]int{{64, 64, 64}, {-80, -80, -80}, {-70, 60, 60}, {60, -70, -70}, {-135, -135, -135}, {-135, -100, -100}, {-100, -135, -135},
+			{0, -80, 70}, {0, 70, -80}, {3, -40, 90}}[u-n*n] // the last three: target sides 150 and 130 binary orders apart from each other
+		c12Extreme(w, fam[0], fam[1], fam[2])
 		return
 	}
 	vw, vh := dom[u/n], dom[u%n]
